@@ -171,7 +171,7 @@ func (f *Subseq) getArgs(s *slip.Scope, args slip.List, depth int) (start, end i
 		}
 		seq = ta
 	case *slip.Vector:
-		size := ta.Length()
+		size := len(ta.AsList()) // only the elements in front of a fill pointer
 		if end < 0 {
 			end = size
 		}
